@@ -593,19 +593,20 @@ def rand_raw(rng, n):
     return obs
 
 
-def corrupted(sess):
-    """copies of recorded sessions with one field changed: the trace specification must reject each (the binding is real)"""
+_PRINTED = []          # a few histories as TLC printed them (the outcomes are the specification's own)
+
+
+def corrupted():
+    """histories as the specification printed them, with one field changed: the trace specification must reject each
+    (the binding is real; independent of what the library does)"""
     import copy
     out = []
-    for o in sess:
-        ks = [k for k, e in enumerate(o['steps']) if e[0] == 'call' and e[2][0] == 'ok']
-        if not ks:
-            continue
-        a = copy.deepcopy(o); a['steps'][ks[-1]][2][1][0] += 1                      # the result one day later
-        b = copy.deepcopy(o); b['steps'][ks[0]][3][0].append(['foreign', 'x'])      # the caller's first list grew during a call
+    for name, lists0, hist in _PRINTED:
+        o = {'k': 'sess', 'lists0': lists0, 'steps': hist}
+        ks = [k for k, e in enumerate(hist) if e[0] == 'call']
+        a = copy.deepcopy(o); a['steps'][ks[-1]][2][1][0] += 1                      # the last result one day later
+        b = copy.deepcopy(o); b['steps'][ks[0]][3][0].append(['foreign', 'x'])      # the caller's first list grew during the first call
         out += [(a, None), (b, 'argument_changed')]
-        if len(out) >= 6:
-            break
     return out
 
 
@@ -617,7 +618,7 @@ def c2s(ctx, ranges, nraw, upper_every, nsess):
     sess = rand_sessions(ctx.rng, nsess)
     obs += raw + sess
     ctx.evals += total + len(raw) + sum(1 for o in sess for e in o['steps'] if e[0] == 'call')
-    fake = corrupted(sess)
+    fake = corrupted()
     bad = ctx.validate('Trace_Bump', obs + [f for f, _ in fake])
     rejected = {i: cl for i, cl in bad if i > len(obs)}
     for j, (f, want) in enumerate(fake):
@@ -676,7 +677,9 @@ def sessions(ctx):
         ctx.mc('MC_BumpSession', 'MC_BumpSession_thorough.cfg')
     # the generator runs check every clause on every history they print
     s2c_sessions(ctx, ctx.generate('MC_BumpSession', 'MC_BumpSession_genc.cfg' if ctx.quick else 'MC_BumpSession_genct.cfg'), 'collide', 16 if ctx.quick else 1)
-    s2c_sessions(ctx, ctx.generate('MC_BumpSession', 'MC_BumpSession_gen.cfg' if ctx.quick else 'MC_BumpSession_gent.cfg'), 'probe', 0)
+    probe = ctx.generate('MC_BumpSession', 'MC_BumpSession_gen.cfg' if ctx.quick else 'MC_BumpSession_gent.cfg')
+    _PRINTED[:] = sorted(probe, key=json.dumps)[::max(1, len(probe) // 4)][:4]
+    s2c_sessions(ctx, probe, 'probe', 0)
     if not ctx.quick:
         s2c_sessions(ctx, ctx.generate('MC_BumpSession', 'MC_BumpSession_genf.cfg'), 'free', 0)
         sim = ctx.generate('MC_BumpSession', 'MC_BumpSession_sim.cfg', simulate=4000, depth=9, seed=ctx.seed + 9, workers=1)
@@ -726,9 +729,21 @@ def run(ctx):
 def replay(ctx, body):
     """./check C09 --replay <file>: re-execute one recorded failing call and let Trace_Bump judge it again"""
     c = body['case']
+    if c.get('kind') == 'session':                       # a recorded history: run it again on fresh shared objects
+        o = {'k': 'sess', 'lists0': c['lists0'], 'steps': exec_session(c['lists0'], [(e[0], e[1]) for e in c['history']])}
+        bad = ctx.validate('Trace_Bump', [o])
+        print('replay C09: session %s -> %s : %s' % (json.dumps(c['history'])[:300], json.dumps([e[2:] for e in o['steps']])[:300],
+                                                     'VIOLATES ' + bad[0][1] if bad else 'explained by the specification'))
+        import shutil
+        shutil.rmtree(ctx.tmp, ignore_errors=True)
+        return 1 if bad else 0
     form = c['form'] if c['form'] in ('l', 'u', 'p', 'args', 'dt', 'dtargs', 'mixed', 'call') else 'l'
     bump = [c['kind'], c['bump']]
-    o = {'k': 'raw', 't': c['t'], 'bump': bump, 'form': form, 'out': call(c['t'], bump, form)}
+    if 'real' in c:                                      # a start realisation / bump dress
+        st = exec_session([], [('call', ['dt' if c['op'] == 'dt' else 'bump', {'real': c['real'], 't': c['t']}, ['item', bump], c['dress']])])
+        o = {'k': 'raw', 't': c['t'], 'bump': bump, 'form': c['dress'], 'real': c['real'], 'out': st[0][2]}
+    else:
+        o = {'k': 'raw', 't': c['t'], 'bump': bump, 'form': form, 'out': call(c['t'], bump, form)}
     bad = ctx.validate('Trace_Bump', [o])
     print('replay C09: dt_bump(%s, %r) [%s] -> %s : %s' % (inst(c['t']), c.get('tenor', c['bump']), form, o['out'],
                                                           'VIOLATES ' + bad[0][1] if bad else 'explained by the specification'))
